@@ -99,14 +99,21 @@ class BaseKey(t.Generic[NativePrivateKey, NativePublicKey], metaclass=ABCMeta):
         self.original_value = original_value
         # the key keeps copies: the dicts (and the lists in them, "key_ops", "x5c")
         # remain the caller's, who may change or reuse them afterwards
-        self.extra_parameters = copy.deepcopy(parameters)
+        try:
+            self.extra_parameters = copy.deepcopy(parameters)
+        except RecursionError:
+            raise ValueError("Invalid parameters: too deeply nested")
         self._dict_value: DictKey = {}
         if isinstance(original_value, dict):
             if parameters is not None:
                 data = {**original_value, **parameters, "kty": self.key_type}
             else:
                 data = {**original_value, "kty": self.key_type}
-            data = copy.deepcopy(data)
+            try:
+                data = copy.deepcopy(data)
+            except RecursionError:
+                # a member nested deeper than a copy can follow, e.g. in a received "epk"
+                raise ValueError("Invalid key: too deeply nested")
             self.validate_dict_key(data)
             self._dict_value = data
 
